@@ -240,6 +240,11 @@ func (c *Config) cert(hostname string) (*tls.Certificate, error) {
 		hostname = host
 	}
 
+	if hostname == "" {
+		// Neither SNI nor a fallback host: there is no name to forge a certificate for.
+		return nil, errors.New("mitm: no host name available, failed to build certificate")
+	}
+
 	c.certmu.RLock()
 	tlsc, ok := c.certs[hostname]
 	c.certmu.RUnlock()
